@@ -245,7 +245,16 @@ def serial_snapshots(pb: Problem, s: int) -> tuple[list[list[torch.Tensor]] | No
     units = pb.serial_units(s)
     if not units:
         return [[] for _ in pb.steps], None
-    params = [torch.nn.Parameter(pb.unit_tensor(pb.full[i], (i, spec))) for (i, spec) in units]
+    unit_ts = [pb.unit_tensor(pb.full[i], (i, spec)) for (i, spec) in units]
+    ll = pb.case.get("llayout")
+    if ll and pb.flavour in ("fully_shard", "hybrid_shard"):
+        # "exactly as the single-process optimizer would update that local tensor as an ordinary parameter": the ordinary parameter has the local
+        # shard's memory layout too (strided and contiguous reductions may round differently in bfloat16)
+        for j, ((i, spec), t) in enumerate(zip(units, unit_ts)):
+            if i < len(ll) and ll[i] and t.dim() >= 2 and t.numel() > 0 and (not pb.eff["merge"] or tuple(rm.merge_dims(tuple(t.shape), pb.eff["mpd"], True)) == tuple(t.shape)):
+                rev = list(range(t.dim()))[::-1]
+                unit_ts[j] = t.permute(*rev).contiguous().permute(*rev)
+    params = [torch.nn.Parameter(t) for t in unit_ts]
     cd, pdt, cp = pb.comm_dtype, pb.dt, pb.comm_params
     comm = pb.flavour in ("ddp", "hsdp", "hybrid_shard")
     exact = (not comm) or (all(_at_least_as_precise(cd, d_) for d_ in pb.dts) and not (pb.f10_class() and pb.case.get("probe") != "F10"))
